@@ -277,15 +277,37 @@ def probe_finalises():
         for b in created: b.destroy()
 
 
+def probe_finalises_lookback():
+    """every equation of the scenario is evaluated at each step: the look-back family (the flow reads an auxiliary two steps
+    back that nobody requests and no stock or flow reads at its own time), only the stock requested, c -> 10 with the fourth step"""
+    created = []
+    try:
+        bp = make_factory(dict(probe_case(1.0, 8, [2], []), family="lookback"), created)()
+        bp.begin_session(scenarios=[SC], scenario_managers=[SM], equations=["s"], dt=1.0)
+        vals = []
+        for j in range(7):
+            r = bp.run_step(settings=settings_of(10.0)) if j == 3 else bp.run_step()
+            vals.append(list(r[SM][SC]["s"].values())[0])
+        return vals == [0.0, 1.0, 2.0, 3.0, 4.0, 5.0, 15.0]
+    finally:
+        for b in created: b.destroy()
+
+
+def probe_all():
+    state = probe_finalises()
+    return {"dt": probe_session_dt(), "clock": probe_clock(), "final": state and probe_finalises_lookback(), "state": state}
+
+
 def gen_lean(f):
     b = lambda x: "true" if x else "false"
     cfg = (f"def cfg : Cfg := {{ sessionDtFromScenario := {b(f['dt'])}, stepClockNormalised := {b(f['clock'])}, "
-           f"stepFinalisesAll := {b(f['final'])} }}\n")
-    if all(f.values()):
+           f"stepFinalisesAll := {b(f['final'])}, stepFinalisesState := {b(f['state'])} }}\n")
+    if f["dt"] and f["clock"] and f["final"]:
         body = "theorem holds : C09_full cfg := C09_full_of_good cfg (by decide)\n#print axioms holds\n"
     else:
-        thm = ("C09_witness_session_dt" if not f["dt"] else "C09_witness_clock" if not f["clock"] else "C09_witness_settings_leak")
-        body = (f"theorem violated : ¬ C09_full cfg := {thm} cfg (by decide)\n#print axioms violated\n"
+        thm = ("C09_witness_session_dt cfg (by decide)" if not f["dt"] else "C09_witness_clock cfg (by decide)" if not f["clock"] else
+               "C09_witness_state_only cfg (by decide) (by decide)" if f["state"] else "C09_witness_settings_leak cfg (by decide)")
+        body = (f"theorem violated : ¬ C09_full cfg := {thm}\n#print axioms violated\n"
                 "#print axioms partition_invariance\n#print axioms formats_agree\n#print axioms C09_partial_all_requested\n")
     return ("import Bptk.Props.C09\n/-! GENERATED by harness/props/c09.py from the code under test on every run — do not edit. -/\n"
             "namespace Bptk.C09.Gen\n" + cfg + body + "end Bptk.C09.Gen\n")
@@ -308,8 +330,9 @@ def gen_calls(rng, n):
             calls.append(("steps", m, val())); k += m
         else:
             calls.append(("stream", val())); k = n + 1
-            break
-        if k > n:
+            if not rng.chance(1, 2):
+                break              # else: further calls after a completed stream-steps (the lock is released on completion)
+        if k > n and not rng.chance(1, 3):
             break
     if rng.chance(1, 3) and k <= n:
         calls.append(("stream", val()))
@@ -411,14 +434,14 @@ def run_case(case, facts):
     while k < len(raw):
         raw[k] = tok(x); x = x + sdt; k += stride
     eqs = ",".join(map(str, case["eqs"]))
-    req = ["model %s %s %s %s" % tuple(fbits(case[k]) for k in ("a", "b", "s0", "dt")),
+    req = ["model %s %s %s %s" % tuple(fbits(case[k]) for k in ("a", "b", "s0", "dt")) + (" 1" if case.get("family") == "lookback" else " 0"),
            "spec %d %d %s" % (n, stride, ",".join(raw)),
            "begin %s %d %s" % (fbits(case["c0"]), lazy_flag(case["eqs"]), eqs)]
     exp = ["ok", "ok", "ok"]
     for c, rep in zip(case["calls"], rest["per_call"]):
         req.append(call_line(c)); exp.append(rep)
-    req += ["results", "byeq", "flat", "batchdf %s %s" % (fbits(case["c0"]), eqs), "batchdict %s %s" % (fbits(case["c0"]), eqs)]
-    exp += [api["results"], rest["byeq"], rest["flat"], dfrows, dd]
+    req += ["results", "mresults", "byeq", "flat", "batchdf %s %s" % (fbits(case["c0"]), eqs), "batchdict %s %s" % (fbits(case["c0"]), eqs)]
+    exp += [api["results"], api["results"] if facts["dt"] else "n/a", rest["byeq"], rest["flat"], dfrows, dd]
     # ---- reference verdicts
     problems = []
     if not (dd == jj == rest["run"]):
@@ -477,7 +500,7 @@ def shrink_case(case, facts, key):
 
 def run(chk):
     quiet_bptk_logging()
-    facts = {"dt": probe_session_dt(), "clock": probe_clock(), "final": probe_finalises()}
+    facts = probe_all()
     chk.notes["cfg"] = facts
     ok, why = chk.prove(gen_lean(facts))
     chk.cov["trusted_base"] = [
@@ -493,7 +516,7 @@ def run(chk):
                        "one SD scenario per session"]
     rng = chk.rng.fork("c09")
     cases = fixed_cases() + [gen_case(rng) for _ in range(220 if chk.quick else 3000)]
-    req, exp, owner = ["cfg %d %d %d" % (facts["dt"], facts["clock"], facts["final"])], ["ok"], [None]
+    req, exp, owner = ["cfg %d %d %d %d" % (facts["dt"], facts["clock"], facts["final"], facts["state"])], ["ok"], [None]
     found, skipped, dist = {}, 0, {"dt": {}, "calls": {}, "eqsets": {}}
     for idx, case in enumerate(cases):
         try:
@@ -507,8 +530,7 @@ def run(chk):
         dist["eqsets"][",".join(EQN[x] for x in case["eqs"])] = dist["eqsets"].get(",".join(EQN[x] for x in case["eqs"]), 0) + 1
         for c in case["calls"]:
             dist["calls"][c[0] + ("+settings" if c[-1] is not None else "")] = dist["calls"].get(c[0] + ("+settings" if c[-1] is not None else ""), 0) + 1
-        if case.get("family") != "lookback":          # the driver models the linear family only; look-back cases: channels + reference
-            req += r; exp += e; owner += [idx] * len(r)
+        req += r; exp += e; owner += [idx] * len(r)       # both families: abstract channel model + memo-level session of the driver
         dist.setdefault("family", {})[case.get("family", "linear")] = dist.setdefault("family", {}).get(case.get("family", "linear"), 0) + 1
         chk.case(json.dumps(case_show(case), sort_keys=True), nontrivial=len(case["calls"]) > 1 or any(c[-1] is not None for c in case["calls"]),
                  sample=case_show(case) if idx % 17 == 3 else None)
@@ -568,7 +590,7 @@ def replay(path):
         return 1
     case = r["case"]
     case["calls"] = [tuple(c) for c in case["calls"]]
-    facts = {"dt": probe_session_dt(), "clock": probe_clock(), "final": probe_finalises()}
+    facts = probe_all()
     print("case:", case_show(case), "facts:", facts)
     try:
         problems = run_case(case, facts)[2]
